@@ -56,6 +56,16 @@ def cases(tier, seed):
             base = nm[-1]
             for si, sp in enumerate((base + " ", " " + " ".join(base).upper(), base.upper() + "\n", "\t" + base.title())):
                 cs.append({"no": no, "cc": cc, "name": sp, "config": 1 + (si % 2) * 2, "tier": tier})
+        # the Hermann-Mauguin symbol written with blanks between its elements ('P 3 1 2', 'P 21/c', 'R -3 c R'), from the harness's own table
+        cs.append({"no": no, "cc": cc, "name": O.HM[no] + (" R" if cc == "rhombohedral" else ""), "config": no % len(CONFIGS), "tier": tier})
+    # cells typed with whole numbers, in every container / dtype; hkl as list / tuple / integer array
+    from .c05 import SWEEP_GROUPS
+
+    for no, cc in SWEEP_GROUPS:
+        g = sg.sg(sgno=no, cell_choice=cc)
+        cell = alph.int_cells(g.crystal_system, g.cell_choice)[0]
+        for ki in range(len(alph.kinds(cell))):
+            cs.append({"no": no, "cc": cc, "name": names[(no, cc)][-1], "config": (no + ki) % len(CONFIGS), "tier": tier, "cell": cell, "cellkind": ki})
     cs.append({"kind": "history", "tier": tier})
     return cs
 
@@ -109,7 +119,13 @@ def check_case(case):
     name = case["name"]
     g = sg.sg(sgno=case["no"], cell_choice=case["cc"])  # the operations of the group that was ASKED for (C04 checks the tables themselves)
     ops = O.exact_ops(g)
-    cell = alph.conforming_cells(g.crystal_system, g.cell_choice)[0]
+    cell = case.get("cell") or alph.conforming_cells(g.crystal_system, g.cell_choice)[0]
+    cell_arg, ftol, hk = cell, 1e-9, (lambda h_: h_)
+    if "cellkind" in case:
+        ckind, cell_arg, prec = alph.kinds(cell)[case["cellkind"]]
+        ftol = 1e-9 if prec == "exact" else 2e-5
+        hk = [list, tuple, lambda h_: np.array(h_, dtype=np.int64), lambda h_: np.array(h_, dtype=np.int32), lambda h_: np.array(h_, float)][case["cellkind"] % 5]
+        name = name + ":cell as " + ckind
     label, spec = CONFIGS[case["config"]]
     atoms = [structure.atom_entry(label="a%d" % i, atomtype=el, pos=list(pos), adp_type=adpt, adp=list(adp) if adpt == "Uani" else adp,
                                   occ=occ, symmulti=g.nsymop) for i, (el, pos, adpt, adp, occ) in enumerate(spec)]
@@ -119,13 +135,13 @@ def check_case(case):
 
     def Fof(h):
         if h not in cache:
-            cache[h] = complex(*structure.StructureFactor(h, cell, name, atoms))
+            cache[h] = complex(*structure.StructureFactor(hk(h), cell_arg, case["name"], atoms))
         return cache[h]
 
     tag = "Sg%d/%s[%s]:%s" % (case["no"], case["cc"], name, label)
     for h in hkls(case["tier"]):
         Fh = Fof(h)
-        tol = scale * (1e-9 + (2 * math.pi * sum(abs(x) for x in h) * 2e-6 if loose else 0.0))
+        tol = scale * (ftol + (2 * math.pi * sum(abs(x) for x in h) * 2e-6 if loose else 0.0))
         for j, ((R, t), tf) in enumerate(zip(ops, g.trans)):
             hR = O.row_times(h, R)
             FR = Fof(hR)
@@ -141,7 +157,7 @@ def check_case(case):
             r.check("extinct/scale", abs(Fh) / scale, tol / scale, "%s:h=%s:extinct" % (tag, h), "F = 0 for a reflection extinguished by the group", 0, [Fh.real, Fh.imag])
             r.nontrivial.add("Sg%d/%s:extinct:%s" % (case["no"], case["cc"], h))
         Fm = Fof(tuple(-x for x in h))
-        r.check("friedel/scale", abs(Fm - Fh.conjugate()) / scale, 1e-9, "%s:h=%s:friedel" % (tag, h), "F(-h) = conj F(h) without dispersion",
+        r.check("friedel/scale", abs(Fm - Fh.conjugate()) / scale, ftol, "%s:h=%s:friedel" % (tag, h), "F(-h) = conj F(h) without dispersion",
                 [Fh.real, -Fh.imag], [Fm.real, Fm.imag])
     r.states = len(cache)
     r.transitions = r.evals
